@@ -1335,6 +1335,11 @@ impl std::io::Write for SmallSink {
         self.out.borrow_mut().extend_from_slice(&buf[..k]);
         Ok(k)
     }
+    /// native vectored write: the slices are one run of bytes, the cap may end inside any of them
+    fn write_vectored(&mut self, bufs: &[std::io::IoSlice<'_>]) -> std::io::Result<usize> {
+        let joined: Vec<u8> = bufs.iter().flat_map(|b| b.iter().cloned()).collect();
+        self.write(&joined)
+    }
     fn flush(&mut self) -> std::io::Result<()> {
         Ok(())
     }
